@@ -7,25 +7,26 @@ use super::super::*;
 use crate::verif::rt::*;
 use crate::verif::spec_nl::*;
 
-const TWO17: i64 = 1 << 17;
+const TWO17: i32 = 1 << 17;
 
 // ---- latitude -----------------------------------------------------------------------------------
-// lat = 360 * u / KLAT, KLAT = 60*59*2^21: lat/Dlat0 = u/(59*2^21), lat/Dlat1 = u/(60*2^21)
-const KLAT: i64 = 60 * 59 * (1 << 21);
-const U87: i64 = 1_794_113_536; // floor(87/360 * KLAT)
+// lat = 360 * u / KLAT, KLAT = 60*59*2^19 (resolution 2e-7 deg = 2 cm): lat/Dlat0 = u/(59*2^19),
+// lat/Dlat1 = u/(60*2^19). 32-bit arithmetic on purpose (64-bit division circuits stall the solver).
+const KLAT: i32 = 60 * 59 * (1 << 19);
+const U87: i32 = 448_528_384; // floor(87/360 * KLAT)
 
-fn encode_lat(u: i64) -> (u32, u32) {
-    let m0 = 59 * (1i64 << 21);
-    let m1 = 60 * (1i64 << 21);
+fn encode_lat(u: i32) -> (u32, u32) {
+    let m0 = 59 * (1i32 << 19);
+    let m1 = 60 * (1i32 << 19);
     let r0 = u.rem_euclid(m0);
     let r1 = u.rem_euclid(m1);
-    let yz0 = ((r0 + 59 * 8) / (59 * 16)) % TWO17; // floor(2^17 * frac + 1/2) mod 2^17
-    let yz1 = ((r1 + 60 * 8) / (60 * 16)) % TWO17;
+    let yz0 = ((r0 + 59 * 2) / (59 * 4)) % TWO17; // floor(2^17 * frac + 1/2) mod 2^17
+    let yz1 = ((r1 + 60 * 2) / (60 * 4)) % TWO17;
     (yz0 as u32, yz1 as u32)
 }
 
 fn lat_e2e(parity: u32) {
-    let u = any_i64();
+    let u = any_i32();
     assume(u >= -U87 && u <= U87);
     let (yz0, yz1) = encode_lat(u);
     let got = cpr_location(&[yz0, yz1], &[40000, 90000], parity, 1);
@@ -46,8 +47,8 @@ fn lat_e2e(parity: u32) {
     }
 }
 
-// @harness props=C08 tier=quick cap=2400 needs=kfmod
-// every latitude in 87S..87N (resolution 5 mm), even frame newer: decode within one bin of the truth
+// @harness props=C08 tier=thorough cap=7200 needs=kfmod
+// every latitude in 87S..87N (resolution 2 cm), even frame newer: decode within one bin of the truth
 #[cfg_attr(kani, kani::proof)]
 #[cfg_attr(kani, kani::unwind(60))]
 #[cfg_attr(verif_replay, test)]
@@ -66,29 +67,29 @@ fn c08_lat_e2e_odd_newer() {
 
 // ---- longitude, one instance per NL zone and parity -------------------------------------------
 /// a latitude (in u units) in the middle of zone NL, northern or southern by seed
-fn zone_mid_u(nl: i32, south: bool) -> i64 {
+fn zone_mid_u(nl: i32, south: bool) -> i32 {
     // NL_TABLE[i] = (upper latitude of zone NL = 59 - i, NL)
     let idx = (59 - nl) as usize;
     let hi = NL_TABLE[idx].0;
     let lo = if idx == 0 { 0.0 } else { NL_TABLE[idx - 1].0 };
     let mid = (lo + hi) / 2.0;
-    let u = (mid / 360.0 * KLAT as f64) as i64;
+    let u = (mid / 360.0 * KLAT as f64) as i32;
     if south { -u } else { u }
 }
 
 fn lon_e2e(nl: i32, parity: u32) {
     let south = crate::verif::seed::SEED % 2 == 1;
     let (yz0, yz1) = encode_lat(zone_mid_u(nl, south));
-    // lon = 360 * v / KLON, KLON = NL*(NL-1)*2^21 (NL >= 2): lon/Dlon0 = v/((NL-1)*2^21), lon/Dlon1 = v/(NL*2^21)
-    let n0 = nl as i64;
-    let n1 = (nl - 1) as i64;
-    let klon = n0 * n1 * (1i64 << 21);
-    let v = any_i64();
-    assume(v >= 0 && v < klon);
-    let r0 = v % (n1 * (1i64 << 21));
-    let r1 = v % (n0 * (1i64 << 21));
-    let xz0 = ((r0 + n1 * 8) / (n1 * 16)) % TWO17;
-    let xz1 = ((r1 + n0 * 8) / (n0 * 16)) % TWO17;
+    // lon = 360 * v / KLON, KLON = NL*(NL-1)*2^19 (NL >= 2): lon/Dlon0 = v/((NL-1)*2^19), lon/Dlon1 = v/(NL*2^19)
+    let n0 = nl as u32;
+    let n1 = (nl - 1) as u32;
+    let klon = n0 * n1 * (1u32 << 19);
+    let v = any_u32();
+    assume(v < klon);
+    let r0 = v % (n1 * (1u32 << 19));
+    let r1 = v % (n0 * (1u32 << 19));
+    let xz0 = ((r0 + n1 * 2) / (n1 * 4)) % (1 << 17);
+    let xz1 = ((r1 + n0 * 2) / (n0 * 4)) % (1 << 17);
     let got = cpr_location(&[yz0, yz1], &[xz0 as u32, xz1 as u32], parity, 1);
     let lon360 = v as f64 * (360.0 / klon as f64);
     let truth = if lon360 >= 180.0 { lon360 - 360.0 } else { lon360 };
